@@ -44,7 +44,7 @@ def classify(name, entries, per_file=40, timeout=1500):
     files = []
     for k in range(0, (len(terms) + per_file - 1) // per_file):
         chunk = terms[k * per_file:(k + 1) * per_file]
-        fn = os.path.join(cdir, f"{name}_cls_{k}.v")
+        fn = os.path.join(cdir, f"{name}_cls_p{os.getpid()}_{k}.v")
         with open(fn, "w") as f:
             f.write(PREAMBLE + "\nDefinition cases := [\n" + ";\n".join(chunk) + "\n].\n")
             f.write("Eval vm_compute in classify_all cases.\nEval vm_compute in check_cases cases.\n")
